@@ -62,6 +62,19 @@ def gen_cases(tier, seed):
         else:
             content = gen.content_of(rng, cls, length)
         cases.append({'fn': 'make_sequence', 'content': content, 'kw': kw, 'tag': cls, 'sel': sel})
+    # version= path: systematic length sweep (the symbol count estimate has many boundaries; lengths divisible by the
+    # group size of the mode are a class of their own)
+    for v in ((1, 2) if tier == 'quick' else (1, 2, 3, 4, 5)):
+        for lv in oracle.LEVELS:
+            for mode, step in (('numeric', 3), ('alphanumeric', 2), ('byte', 1)):
+                per = gen.max_chars(v, lv, mode)
+                top = per * 16
+                lens = list(range(step, top, step * (1 if tier == 'thorough' else 2)))
+                if tier == 'quick':
+                    lens = rng.sample(lens, min(len(lens), 60))
+                for n_ in lens:
+                    cases.append({'fn': 'make_sequence', 'content': gen.content_for_bits(mode, n_), 'kw': {'version': v, 'error': lv},
+                                  'tag': 'version-sweep-' + mode, 'sel': 'version'})
     # symbol counts outside 1..16 must never produce a sequence
     for sc in (0, 17, 18, 32, -1):
         for length in (40, 400):
